@@ -8,6 +8,7 @@ import (
 	"encoding/json"
 	"fmt"
 	"os"
+	"os/exec"
 	"path/filepath"
 	"regexp"
 	"strconv"
@@ -432,6 +433,20 @@ func main() {
 		syscall.Kill(os.Getpid(), syscall.SIGSEGV)
 		time.Sleep(time.Second)
 	case "kill9":
+		syscall.Kill(os.Getpid(), syscall.SIGKILL)
+		time.Sleep(time.Second)
+	case "straggler":
+		// a lost-but-alive job: this attempt dies from a signal (mrp retries
+		// it under a new uniquifier) and a detached leftover of it reports
+		// completion through this attempt's journal name later on
+		jf := tail[3] + "." + map[string]string{"main": "", "split": "split_", "join": "join_"}[phase] + "complete"
+		d := rule.DelayAfterMs
+		if d == 0 {
+			d = 2500
+		}
+		cmd := exec.Command("/bin/sh", "-c", fmt.Sprintf("exec 3>&- 4>&- 5>&- 6>&- 7>&-; sleep %d.%03d; echo stale > '%s'", d/1000, d%1000, strings.ReplaceAll(jf, "'", "'\\''")))
+		cmd.SysProcAttr = &syscall.SysProcAttr{Setsid: true}
+		cmd.Start()
 		syscall.Kill(os.Getpid(), syscall.SIGKILL)
 		time.Sleep(time.Second)
 	case "kill_mrjob":
